@@ -12,7 +12,12 @@ Local Open Scope Z_scope.
 Definition accepted_inside_interval (c : case) : bool :=
   match c_kind c with
   | 3%N => true
-  | _ => negb (N.eqb (c_impl c) 0) || ((c_t c <=? c_e c) && (c_e c <=? c_t c + c_W c))
+  | _ =>
+      (* only where the Go arithmetic is the mathematical one: t + W does not wrap int64 and the window is not
+         negative (the unrestricted statement with wrap-around is C10's) *)
+      if fits64 (c_t c + c_W c) && (0 <=? c_W c)
+      then negb (N.eqb (c_impl c) 0) || ((c_t c <=? c_e c) && (c_e c <=? c_t c + c_W c))
+      else true
   end.
 
 Definition check_case : case -> bool := accepted_inside_interval.
